@@ -30,6 +30,8 @@ type c13Case struct {
 	// Route 1: a middleware holds as many placeholder patterns; the Origins of its own Config() result are overwritten
 	// in place with the list and the result is handed to Reconfigure of that middleware
 	Route int `json:"route,omitempty"`
+	// Route 2: the pattern is listed twice (first and last) and the very same Config value is submitted twice; the
+	// second verdict is judged
 	// Earlier: the process has just started and has validated these patterns (each alone, both DangerouslyTolerate*
 	// switches on) before anything else happened (see "fresh processes" in main.go)
 	Earlier []string `json:"earlier_in_a_fresh_process,omitempty"`
@@ -87,6 +89,11 @@ func c13Judge(k c13Case) *vlib.Failure {
 			}
 		}
 		return nil
+	}
+	if k.Route == 2 {
+		cfg.Origins = append([]string{k.Pattern}, list...)
+		list = cfg.Origins
+		cors.NewMiddleware(cfg)
 	}
 	m, err := cors.NewMiddleware(cfg)
 	if k.Route == 1 {
@@ -491,6 +498,7 @@ func checkC13(c *vlib.Ctx) (string, string) {
 		c.Nontrivial.Add(1)
 		ck.Try(c13Case{Pattern: s, Valid: true, How: "documented grammar"})
 		ck.Try(c13Case{Pattern: s, Valid: true, How: "documented grammar", Route: 1})
+		ck.Try(c13Case{Pattern: s, Valid: true, How: "documented grammar", Route: 2})
 		comps := c13Company(b)
 		for _, d := range defects {
 			if m, ok := d.f(b); ok {
@@ -498,6 +506,7 @@ func checkC13(c *vlib.Ctx) (string, string) {
 				c.Nontrivial.Add(1)
 				ck.Try(c13Case{Pattern: m, How: d.name + " applied to " + s})
 				ck.Try(c13Case{Pattern: m, How: d.name + " applied to " + s, Route: 1})
+				ck.Try(c13Case{Pattern: m, How: d.name + " applied to " + s, Route: 2})
 				for ctx := 1; ctx < len(c13Contexts); ctx++ {
 					nCompany++
 					ck.Try(c13Case{Pattern: m, How: d.name + " applied to " + s, Ctx: ctx})
@@ -507,6 +516,7 @@ func checkC13(c *vlib.Ctx) (string, string) {
 					nCompany += 2
 					ck.Try(c13Case{Pattern: m, How: d.name + " applied to " + s, Company: co})
 					ck.Try(c13Case{Pattern: m, How: d.name + " applied to " + s, Company: co, Route: 1})
+					ck.Try(c13Case{Pattern: m, How: d.name + " applied to " + s, Company: co, Route: 2})
 					ck.Try(c13Case{Pattern: m, How: d.name + " applied to " + s, Company: co, After: true})
 				}
 			}
